@@ -171,7 +171,18 @@ type pool struct {
 func addReference(t *rapid.T, obj *model.Node, i int, pl pool, label string) {
 	key := fmt.Sprintf("p%d", i)
 	pick := func(names []string, l string) string { return rapid.SampledFrom(names).Draw(t, label+l) }
-	switch rapid.IntRange(0, 9).Draw(t, label+"pos") {
+	switch rapid.IntRange(0, 10).Draw(t, label+"pos") {
+	case 10:
+		// a nested object that inherits on its own (below an object that may itself carry allOf)
+		if len(pl.obj) > 0 {
+			obj.Add(key, model.Obj(model.R("allOf", model.Str(pick(pl.obj, "nestedallof")))).Add("nested_own_"+key, model.Scalar("integer", "1")))
+			if !obj.HasRule("allOf") && !obj.HasRule("additionalProperties") && rapid.Bool().Draw(t, label+"outerallof") {
+				outer := pick(pl.obj, "outerallofname")
+				obj.Rules = append(obj.Rules, model.R("allOf", model.Str(outer)))
+			}
+			return
+		}
+		obj.Add(key, model.Scalar("integer", "1"))
 	case 0:
 		obj.Add(key, model.Ref(pick(pl.any, "n")))
 	case 1:
